@@ -470,6 +470,24 @@ fn replay(file: &str) -> i32 {
     let h: History = serde_json::from_value(v["history"].clone()).unwrap_or_else(|e| vcore::harness_error(&format!("no history in replay file: {e}")));
     let schedule: Vec<usize> = serde_json::from_value(v["schedule"].clone()).unwrap_or_default();
     let sig = v["signature"].as_str().unwrap_or("").to_string();
+    if v["layer"].as_str() == Some("stdio") {
+        // second-layer finding: real binary over stdio (scheduling not controlled: repeat a few pacings)
+        stdio::build_server();
+        let l1 = execute(&h.to_messages(), &SchedSpec::RoundRobin);
+        for k in 0..8u64 {
+            let mut rng = Rng::new(k);
+            let out = stdio::run(&h, &mut rng);
+            if let Some((class, detail)) = stdio::compare(&l1.replies, &out) {
+                println!("  {class}: {detail}");
+                if format!("C20.{class}") == sig {
+                    println!("VIOLATION property={PROP} replay={file}");
+                    return 1;
+                }
+            }
+        }
+        println!("not reproduced: {sig}");
+        return 0;
+    }
     let spec = SchedSpec::Replay(schedule);
     let out = execute(&h.to_messages(), &spec);
     let mut js = JudgeStats { requests_compared: 0, diagnostics_compared: 0, ref_failed: 0, mid_surrogate_skipped: 0, formatting_checked: 0, defref_checked: 0, hover_checked: 0 };
